@@ -43,7 +43,41 @@ impl Scratch {
             let _ = std::fs::remove_dir_all(&p);
             std::fs::create_dir_all(&p).expect("tmpfs scratch");
         }
+        let _ = std::fs::remove_dir_all(self.root.join("linkstore"));
         let _ = std::fs::remove_file(self.side().join("events.log"));
+    }
+    /// Between repetitions when the link directory is updated in place: only work/ is recreated; of links/
+    /// everything that is not a regular file about to be rewritten (`keep`, paths relative to links/) goes.
+    pub fn reset_in_place(&self, keep: &std::collections::BTreeSet<String>) {
+        let p = self.root.join("work");
+        let _ = std::fs::remove_dir_all(&p);
+        std::fs::create_dir_all(&p).expect("tmpfs scratch");
+        let _ = std::fs::remove_dir_all(self.root.join("linkstore"));
+        let _ = std::fs::remove_file(self.side().join("events.log"));
+        fn prune(base: &Path, d: &Path, keep: &std::collections::BTreeSet<String>) {
+            if let Ok(rd) = std::fs::read_dir(d) {
+                for e in rd.flatten() {
+                    let p = e.path();
+                    let rel = p.strip_prefix(base).unwrap().to_string_lossy().to_string();
+                    match std::fs::symlink_metadata(&p) {
+                        Ok(m) if m.is_dir() => {
+                            if keep.iter().any(|k| k.starts_with(&format!("{rel}/"))) {
+                                prune(base, &p, keep);
+                            } else {
+                                let _ = std::fs::remove_dir_all(&p);
+                            }
+                        }
+                        Ok(m) if m.is_file() && keep.contains(&rel) => {}
+                        _ => {
+                            let _ = std::fs::remove_file(&p);
+                        }
+                    }
+                }
+            }
+        }
+        let links = self.links();
+        std::fs::create_dir_all(&links).expect("tmpfs scratch");
+        prune(&links, &links, keep);
     }
     pub fn events(&self) -> Vec<String> {
         std::fs::read_to_string(self.side().join("events.log"))
@@ -151,6 +185,54 @@ pub fn in_fresh_thread<T: Send + 'static>(
     })
 }
 
+type Job = Box<dyn FnOnce() + Send>;
+thread_local! {
+    /// the worker's long-lived "verifier thread" (one per harness thread that asks for it)
+    static VERIFIER: std::cell::RefCell<Option<std::sync::mpsc::Sender<Job>>> = std::cell::RefCell::new(None);
+}
+
+/// Run `f` on this worker's long-lived verifier thread: library calls made through it share whatever
+/// thread-local state the library keeps (a fresh thread per call would hide a thread-local that is set
+/// by one call and read by the next). The thread's hash-map keys are drawn once, from the `hash_seed` of
+/// the call that started it. A panic ends the thread; the next call starts a new one.
+pub fn in_same_thread<T: Send + 'static>(hash_seed: u64, f: impl FnOnce() -> T + Send + 'static) -> Result<T, String> {
+    let (rtx, rrx) = std::sync::mpsc::channel::<Result<T, String>>();
+    let job: Job = Box::new(move || {
+        let r = std::panic::catch_unwind(std::panic::AssertUnwindSafe(f)).map_err(|p| {
+            let loc = crate::LAST_PANIC.lock().map(|g| g.clone()).unwrap_or_default();
+            if loc.is_empty() { panic_text(p) } else { loc }
+        });
+        let _ = rtx.send(r);
+    });
+    let sent = VERIFIER.with(|v| {
+        let mut v = v.borrow_mut();
+        if v.is_none() {
+            seams::hash_seed(hash_seed);
+            let (tx, rx) = std::sync::mpsc::channel::<Job>();
+            std::thread::Builder::new()
+                .stack_size(8 << 20)
+                .spawn(move || {
+                    while let Ok(j) = rx.recv() {
+                        j();
+                    }
+                })
+                .expect("spawn verifier thread");
+            *v = Some(tx);
+        }
+        v.as_ref().unwrap().send(job).is_ok()
+    });
+    let r = if sent { rrx.recv().unwrap_or_else(|_| Err("verifier thread died".into())) } else { Err("verifier thread gone".into()) };
+    if r.is_err() {
+        reset_same_thread();
+    }
+    r
+}
+
+/// End this worker's verifier thread (a replay starts from a process that has run nothing).
+pub fn reset_same_thread() {
+    VERIFIER.with(|v| *v.borrow_mut() = None);
+}
+
 /// The library echoes every child's stdout/stderr to the process's own (runlib.rs); keep that off
 /// the harness's output while a library call runs.
 pub fn silenced<T>(f: impl FnOnce() -> T) -> T {
@@ -189,6 +271,10 @@ pub struct VerifyCall<'a> {
     pub clock: &'a [(i64, u32)],
     pub hash_seed: u64,
     pub step_name: Option<String>,
+    /// run the call on the worker's long-lived verifier thread instead of a fresh one
+    pub same_thread: bool,
+    /// entries of the layout's signature list repeated in memory after parsing
+    pub mem_sigdup: Vec<usize>,
 }
 
 pub enum CallResult {
@@ -208,11 +294,18 @@ pub fn verify(call: &VerifyCall) -> CallResult {
     let step_name = call.step_name.clone();
     std::env::set_current_dir(call.cwd).expect("chdir work");
     seams::clock_arm(call.clock);
-    let r = silenced(|| in_fresh_thread(call.hash_seed, move || -> Result<Result<Value, (String, String)>, String> {
-        let mb: Metablock = match serde_json::from_str(&text) {
+    let same_thread = call.same_thread;
+    let mem_sigdup = call.mem_sigdup.clone();
+    let body = move || -> Result<Result<Value, (String, String)>, String> {
+        let mut mb: Metablock = match serde_json::from_str(&text) {
             Ok(m) => m,
             Err(e) => return Err(format!("{e}")),
         };
+        for i in &mem_sigdup {
+            if let Some(sg) = mb.signatures.get(*i).cloned() {
+                mb.signatures.push(sg);
+            }
+        }
         let mut map: HashMap<KeyId, PublicKey> = HashMap::new();
         for (id, k) in keys {
             match id.parse::<KeyId>() {
@@ -232,9 +325,11 @@ pub fn verify(call: &VerifyCall) -> CallResult {
             }
             Err(e) => Ok(Err((err_class(&e), format!("{}", e)))),
         }
-    }));
+    };
+    let r = silenced(|| if same_thread { in_same_thread(call.hash_seed, body) } else { in_fresh_thread(call.hash_seed, body) });
     let clock_reads = seams::clock_disarm();
-    let hash_draws = seams::hash_draws();
+    // (a long-lived thread draws its hash-map keys once, whenever it first needs them: not part of the log)
+    let hash_draws = if same_thread { 0 } else { seams::hash_draws() };
     let mk = |ok, class: &str, msg: &str, panic: Option<String>, summary| Verdict {
         ok,
         class: class.into(),
